@@ -123,6 +123,9 @@ pub fn write_txt_reports<W: io::Write + ?Sized>(
 
                         bal_reporter.write_txt_report(settings, &mut out_writer, txn_set)?;
 
+                        // a failure of the final flush must fail the run (drop would swallow it)
+                        out_writer.flush()?;
+
                         if let Some(p) = prog_writer.as_mut() {
                             writeln!(p, "{:>21} : {}", "Balance Report", path)?;
                         }
@@ -151,6 +154,9 @@ pub fn write_txt_reports<W: io::Write + ?Sized>(
 
                         bal_group_reporter.write_txt_report(settings, &mut out_writer, txn_set)?;
 
+                        // a failure of the final flush must fail the run (drop would swallow it)
+                        out_writer.flush()?;
+
                         if let Some(p) = prog_writer.as_mut() {
                             writeln!(p, "{:>21} : {}", "Balance Group Report", path)?;
                         }
@@ -177,6 +183,8 @@ pub fn write_txt_reports<W: io::Write + ?Sized>(
                             create_output_file(output_dir, output_name, "reg", "txt")?;
                         write!(out_writer, "{}", metadata)?;
                         reg_reporter.write_txt_report(settings, &mut out_writer, txn_set)?;
+                        // a failure of the final flush must fail the run (drop would swallow it)
+                        out_writer.flush()?;
                         if let Some(p) = prog_writer.as_mut() {
                             writeln!(p, "{:>21} : {}", "Register Report", path)?;
                         }
